@@ -97,6 +97,7 @@ func VerifPathLock() {
 	}
 	lockPath := verifPath + ".lock"
 	var open *File
+	grown := false
 	nSteps := verifParam("steps", 3)
 	for step := 0; step < nSteps; step++ {
 		verifAssert(verifFlockHeld(lockPath) == (open != nil), "the path lock is held exactly while a File is open")
@@ -108,8 +109,8 @@ func VerifPathLock() {
 				tx, berr := open.Begin()
 				verifAssert(berr == nil, "Begin succeeds on the open File")
 				n := 1
-				if opts.MaxSize == 0 {
-					n = 70
+				if opts.MaxSize == 0 && !grown {
+					n, grown = 70, true // (once: the simulated disk holds 192 KiB)
 				}
 				if ps, aerr := tx.AllocN(n); aerr == nil {
 					_ = ps[0].SetBytes(verifBuf(1, 2, 3))
@@ -302,14 +303,14 @@ func VerifPathLockClose() {
 // no descriptor leaks, the path opens again.
 func VerifPathLockResizeFail() {
 	verifOSReset()
-	opts := Options{MaxSize: 64 * verifPageSize, PageSize: verifPageSize}
+	opts := Options{MaxSize: 96 * verifPageSize, PageSize: verifPageSize}
 	lockPath := verifPath + ".lock"
 	f0, err0 := Open(verifPath, 0600, opts)
 	verifAssert(err0 == nil, "creating the file succeeds")
 	verifAssert(f0.Close() == nil, "Close succeeds")
 	d := verifOS.disks[verifPath]
 	o := opts
-	newMax := []uint64{96, 48}[verifChoose(2)]
+	newMax := []uint64{128, 64}[verifChoose(2)]
 	o.MaxSize, o.Flags, o.Prealloc = newMax*verifPageSize, FlagUpdMaxSize, verifBool("prealloc")
 	kind := verifFaultKinds[verifChoose(len(verifFaultKinds))]
 	d.faultKind, d.faultOrd, d.faultBurst = kind, d.counts[kind]+verifChoose(3), 1
